@@ -144,6 +144,26 @@ def data(kind, which=0):
     raise KeyError(kind)
 
 
+def data_large(kind, n=3500):
+    """A training set beyond the sizes of `data`: thousands of rows without structure (fixed generator, not part of the
+    explored nondeterminism). Block-size / sub-sampling thresholds inside the estimators only exist at such sizes."""
+    numpy = _np()
+    rs = numpy.random.RandomState(20240517)
+    d = 2
+    X = numpy.round(rs.uniform(-3, 3, size=(n, d)), 3)
+    if kind == "nmf":
+        return {"X": numpy.abs(X) + 0.5}
+    if kind in ("cluster", "poly"):
+        return {"X": X}
+    if kind == "reg":
+        return {"X": X, "y": numpy.round(1.0 + X.sum(axis=1) + rs.normal(size=n), 3)}
+    if kind == "recip":
+        return {"X": X, "y": 1.0 + rs.randint(0, 5, size=n) * 0.5}
+    if kind == "clf":
+        return {"X": X, "y": ((X[:, 0] * X[:, 1] > 0) ^ (rs.uniform(size=n) < 0.2)).astype(int)}
+    raise KeyError(kind)
+
+
 def probes(kind, dat):
     numpy = _np()
     if kind in ("cat", "text"):
@@ -336,6 +356,13 @@ def fit(est, kind, dat, w=None):
     return est.fit(X)
 
 
+def fit_raw(est, kind, dat, w=None):
+    """fit on the arrays as given (no private copy): used to present a chosen memory layout to the estimator."""
+    if "y" in dat:
+        return est.fit(dat["X"], dat["y"]) if w is None else est.fit(dat["X"], dat["y"], sample_weight=w)
+    return est.fit(dat["X"])
+
+
 def observe(est, kind, dat, P=None):
     """Outputs of every public prediction method on the probe set + documented fitted attributes."""
     numpy = _np()
@@ -405,3 +432,43 @@ def same_obs(a, b, exact=False, rtol=1e-9, atol=1e-12):
                 continue
             return "%s differs: %r vs %r" % (k, x, y)
     return None
+
+
+def layouts(a, names=None):
+    """Memory-layout alphabet: the same values (same dtype, same shape) behind different strides / flags.
+    Every estimator and function is specified on *values*; results must not depend on the entry.
+    Neighbouring memory of the non-contiguous views holds a filler value distinct from the data, so a routine that
+    walks the buffer instead of the view reads foreign numbers."""
+    numpy = _np()
+    a = numpy.ascontiguousarray(a)
+    out = [("C", a)]
+    fill = numpy.array(-777).astype(a.dtype) if a.dtype.kind in "iuf" else None
+    if a.dtype.kind not in "iufb":
+        return out
+    if a.ndim == 1:
+        n = len(a)
+        t = numpy.full((n, 3), fill, dtype=a.dtype)
+        t[:, 0] = a
+        out.append(("column of a C-ordered table", t[:, 0]))
+        b = numpy.full(2 * n + 1, fill, dtype=a.dtype)
+        b[1::2] = a
+        out.append(("every second element", b[1::2]))
+        out.append(("negative stride", a[::-1].copy()[::-1]))
+    elif a.ndim == 2:
+        n, m = a.shape
+        out.append(("Fortran order", numpy.asfortranarray(a)))
+        big = numpy.full((2 * n + 1, 2 * m + 1), fill, dtype=a.dtype)
+        big[1::2, 1::2] = a
+        out.append(("strided window of a larger table", big[1::2, 1::2]))
+        out.append(("negative strides", a[::-1, ::-1].copy()[::-1, ::-1]))
+        big2 = numpy.full((m, n + 2), fill, dtype=a.dtype)
+        big2[:, 1:-1] = a.T
+        out.append(("transposed window", big2[:, 1:-1].T))
+    ro = a.copy()
+    ro.setflags(write=False)
+    out.append(("read-only", ro))
+    for nm, v in out:
+        assert v.shape == a.shape and v.dtype == a.dtype and numpy.array_equal(v, a, equal_nan=a.dtype.kind == "f")
+    if names is not None:
+        out = [(nm, v) for nm, v in out if nm in names]
+    return out
